@@ -218,5 +218,6 @@ int main(int argc, char **argv)
     run_app<sapp::Flat>(T ? 3 : 2, T ? 2 : 1, L);
     run_app<sapp::Preset>(T ? 5 : 4, T ? 2 : 1, L);
     run_app<sapp::Tree>(T ? 5 : 4, T ? 2 : 1, L);
+    run_app<sapp::Synth>(T ? 7 : 6, 0, L);
     return vp::finish();
 }
